@@ -429,8 +429,7 @@ theorem shrPad_signed {w n s : Nat} {a : List Nat} (hw : 1 ≤ w) (hn : 1 ≤ n)
     have : (U w r : Int) + (2 ^ (w * n - s) : Int) = (U w a / 2 ^ s : Nat) + (M w n : Int) := by
       exact_mod_cast h2
     omega
-end Shift
-namespace Shift
+
 
 /-- cyclic left rotation of a `W`-bit pattern by `r ≤ W` places -/
 def rotN (W x r : Nat) : Nat := (x * 2 ^ r) % 2 ^ W + x / 2 ^ (W - r)
@@ -514,8 +513,7 @@ theorem rotN_add {W x r1 r2 : Nat} (hx : x < 2 ^ W) (hr : r1 + r2 ≤ W) :
     rw [this, rotN_split hr (by rw [e4]; exact b0)]
   rw [s2, s3, e3]; ring
 
-end Shift
-namespace Shift
+
 theorem M_eq_two_pow (w n : Nat) : M w n = 2 ^ (w * n) := rfl
 theorem B_pow_eq (w k : Nat) : B w ^ k = 2 ^ (w * k) := by unfold B; rw [Nat.pow_mul]
 end Shift
@@ -579,8 +577,6 @@ theorem rotateBits_spec {w n bs : Nat} {x : List Nat} (hn : 1 ≤ n) (hx : WF w 
     simp only [U_cons]; omega
   | [], _, hx, hn, _, _ => exact absurd hx.1 (by simp; omega)
 end UI
-namespace Shift
-end Shift
 open Shift
 namespace UI
 
@@ -617,18 +613,11 @@ end UI
 namespace Shift
 theorem bits_pos {w n : Nat} (hw : 1 ≤ w) (hn : 1 ≤ n) : 0 < w * n := Nat.mul_pos hw hn
 
-theorem U_zero (w n : Nat) : U w (zero n) = 0 := U_replicate_zero w n
-theorem WF_zero (w n : Nat) : WF w n (zero n) := WF_replicate n (B_pos w)
-theorem WF_allOnes {w : Nat} (n : Nat) : WF w n (allOnes w n) :=
-  WF_replicate n (by have := B_pos w; omega)
-theorem U_allOnes (w n : Nat) : U w (allOnes w n) + 1 = M w n := by
-  rw [M_eq_pow]; exact U_replicate_max w n
-theorem S_zero (w n : Nat) : S w (zero n) = 0 := by
-  rw [S_def, U_zero]; unfold toInt; have := M_pos w (zero n).length; simp [this]
 theorem S_allOnes {w n : Nat} (hw : 1 ≤ w) (hn : 1 ≤ n) : S w (allOnes w n) = -1 := by
   have h1 := U_allOnes w n
   have h2 := M_even hw hn
-  rw [S_def, (WF_allOnes n).1, toInt_of_ge (by omega)]
+  have h3 := M_pos w n
+  rw [S_def, (WF_allOnes w n).1, toInt_of_ge (by omega)]
   omega
 
 /-- the amount used by wrapping / overflowing shifts -/
@@ -723,8 +712,7 @@ theorem wrapU_S_mul {w n : Nat} {a : List Nat} (ha : WF w n a) (t : Nat) :
   · have e : ((U w a : Int) - (M w n : Int)) * (t : Int) = (U w a : Int) * t + (M w n : Int) * (-(t : Int)) := by
       ring
     rw [e, Int.add_mul_emod_self_left]
-end Shift
-namespace Shift
+
 theorem effAmount_of_lt {bits s : Nat} (h : s < bits) : effAmount bits s = s := by
   unfold effAmount; simp [h]
 end Shift
@@ -838,8 +826,6 @@ theorem unboundedShr_of_lt {w s : Nat} {a : List Nat} (hs : s < w * a.length) :
 theorem unboundedShl_of_lt {w s : Nat} {a : List Nat} (hs : s < w * a.length) :
     unboundedShl w a s = UI.uncheckedShlInternal w a s := UI.unboundedShl_of_lt hs
 end II
-namespace Shift
-end Shift
 open Shift
 namespace UI
 theorem rotateLeft_spec {w n : Nat} {a : List Nat} (hw : 0 < w) (hn : 1 ≤ n) (ha : WF w n a)
